@@ -34,6 +34,8 @@ StrandRank(s) == IF s = "+" THEN 0 ELSE 1
 FeatLess(x, y) == \/ x[1] < y[1]
                   \/ (x[1] = y[1] /\ x[2] < y[2])
                   \/ (x[1] = y[1] /\ x[2] = y[2] /\ StrandRank(x[4]) < StrandRank(y[4]))
+Max2(a, b) == IF a >= b THEN a ELSE b
+Min2(a, b) == IF a <= b THEN a ELSE b
 CountLess(q, v) == Cardinality({ k \in DOMAIN q : q[k] < v })          \* np.searchsorted(q, v, 'left') on a sorted q
 
 (* the part of the index that does not need lookups *)
@@ -48,22 +50,22 @@ FindNB(ix, p, st) ==
     LET n == Len(ix.feats)
         s == CountLess(ix.starts, p + 1)
         lo == CountLess(ix.starts, p - ix.maxlen)
-    IN { ix.feats[k] : k \in { j \in (lo + 1) .. Min(s, n) : ix.feats[j][2] >= p /\ StrandOK(ix.feats[j], st) } }
+    IN { ix.feats[k] : k \in { j \in (lo + 1) .. Min2(s, n) : ix.feats[j][2] >= p /\ StrandOK(ix.feats[j], st) } }
 
 (* _findFeaturesAt(optim='bdbnb'): start from fastIndex[s-1] (Python index: s = 0 reads the LAST entry) *)
 FindBDBNB(ix, p, st) ==
     LET n == Len(ix.feats)
         s == CountLess(ix.starts, p + 1)
         lo == IF s = 0 THEN ix.fast[n] ELSE ix.fast[s]
-    IN { ix.feats[k] : k \in { j \in (lo + 1) .. Min(s, n) : ix.feats[j][2] >= p /\ StrandOK(ix.feats[j], st) } }
+    IN { ix.feats[k] : k \in { j \in (lo + 1) .. Min2(s, n) : ix.feats[j][2] >= p /\ StrandOK(ix.feats[j], st) } }
 
 (* the while-loop of findFeaturesBetween (without the two end-point lookups) *)
 ScanBetween(ix, a, b, st) ==
     LET n == Len(ix.feats)
-        i0 == Min(Max(0, CountLess(ix.starts, a) - 1), Max(0, CountLess(ix.ends, b)))
+        i0 == Min2(Max2(0, CountLess(ix.starts, a) - 1), Max2(0, CountLess(ix.ends, b)))
     IN { ix.feats[k] : k \in { j \in (i0 + 1) .. n :
             /\ \A m \in (i0 + 1) .. j : ix.feats[m][1] <= b          \* the loop stops at the first start > b
-            /\ Max(a, ix.feats[j][1]) <= Min(b, ix.feats[j][2])
+            /\ Max2(a, ix.feats[j][1]) <= Min2(b, ix.feats[j][2])
             /\ StrandOK(ix.feats[j], st) } }
 
 ---------------------------------------------------------------------------------------------------
